@@ -19,7 +19,7 @@ pub fn check() -> Check {
         spec: CheckSpec {
             id: "C10",
             level: "exploration",
-            rule: "one case = one scenario against a child process running the real Server over a real store: 1-4 hostile connections at once, each sending a stream of one attack class (random bytes; valid non-array frames; unknown / lower-case commands; wrong argument counts naming keys of the control traffic; non-UTF-8 keys; integers, nulls and nested arrays as arguments; truncated frames followed by close or by silence; arrays nested 10^2..10^6 deep; lengths 2^63-1, 2^64+5, negative, lone signs; a well-formed prefix followed by garbage; thousands of tiny frames; a command that makes the connection's own handler task panic), while 1-2 control connections run a model-checked SET/GET/DEL workload (C06's oracle, byte-exact replies). Oracle: the server process is alive afterwards; every control reply was right; a fresh connection is served; the store, dumped through the control channel, equals the model, which is changed only by well-formed SET/DEL (control traffic plus the well-formed commands inside hostile streams, on their own keys). Non-trivial = a scenario whose control connections verified commands while attacks were running; distinct = by (attack classes, payload hash). Every eighth scenario ends with an interlude in which every connection slot is taken by a live connection, 1-3 hostile peers connect, write and are reset (SO_LINGER 0) while they still wait in the listen backlog, and the slots are then freed so that the listener accepts sockets that are already dead; the server must still be running and serve a fresh connection.",
+            rule: "one case = one scenario against a child process running the real Server over a real store: 1-4 hostile connections at once, each sending a stream of one attack class (random bytes; valid non-array frames; unknown / lower-case commands; wrong argument counts naming keys of the control traffic; non-UTF-8 keys; integers, nulls and nested arrays as arguments; truncated frames followed by close or by silence; arrays nested 10^2..10^6 deep; lengths 2^63-1, 2^64+5, negative, lone signs; a well-formed prefix followed by garbage; thousands of tiny frames; a command that makes the connection's own handler task panic), while 1-2 control connections run a model-checked SET/GET/DEL workload (C06's oracle, byte-exact replies). Oracle: the server process is alive afterwards; every control reply was right; a fresh connection is served; the store, dumped through the control channel, equals the model, which is changed only by well-formed SET/DEL (control traffic plus the well-formed commands inside hostile streams, on their own keys). Non-trivial = a scenario whose control connections verified commands while attacks were running; distinct = by (attack classes, payload hash). Every eighth scenario ends with an interlude in which every connection slot is taken by a live connection, 1-3 hostile peers connect, write and are reset (SO_LINGER 0) while they still wait in the listen backlog, and the slots are then freed so that the listener accepts sockets that are already dead; the interlude also puts the server process through two 30-90 ms descriptor shortages (accept fails with EMFILE and is retried); the server must still be running and serve a fresh connection.",
             assumptions: vec!["memory exhaustion by streaming gigabytes is not attempted", "the handler-panic attack uses the harness's storage wrapper (serve.rs: PanickyKv), which is the real handle plus a trigger; everything from the socket to the handler is the real code"],
             death_is_violation: false,
         },
@@ -305,7 +305,8 @@ fn new_env(ctx: &Ctx, gen: u64, r: &mut Rng) -> Result<Env, String> {
     // handler that never ends) must show within a few scenarios as a fresh connection that is
     // never served
     let max_conn = *r.pick(&[8usize, 8, 12]);
-    let srv = Server::spawn(&dir, &conf, max_conn, 2, &[])?;
+    // the listener's retry of a failed accept: from 5 ms, giving up (by design) only past 10 s
+    let srv = Server::spawn(&dir, &conf, max_conn, 2, &["backoff:5,10000".to_string()])?;
     Ok(Env { srv, ctl_models: vec![HashMap::new(), HashMap::new()], atk_model: HashMap::new(), atk_keys: Default::default(), counter: 0, max_conn })
 }
 
@@ -423,6 +424,27 @@ fn worker(ctx: &Ctx, out: &mut Out) {
                 classes.push("reset-in-backlog");
             } else {
                 out.count("backlog_interludes_skipped_slots_not_free", 1);
+            }
+            // ... and with two short descriptor shortages in the server process (what one client that
+            // opens connections by the hundred causes): accept() fails and is retried; over the
+            // life of the server such episodes come and go any number of times
+            for w in 0..2 {
+                if !env.srv.fd_shortage_begin(r.range(30, 90)) {
+                    break;
+                }
+                let mut c = connect(port).ok().and_then(|s| s.try_clone().ok().map(|t| (t, Rx::new(s))));
+                if let Some((t, _)) = c.as_mut() {
+                    let _ = t.write_all(&command(&[b"GET", format!("shortage-{}", w).as_bytes()]));
+                }
+                if !env.srv.fd_shortage_end() {
+                    break;
+                }
+                out.count("descriptor_shortage_windows", 1);
+                if let Some((_, rx)) = c.as_mut() {
+                    if rx.reply(Instant::now() + Duration::from_secs(20)).is_ok() {
+                        out.count("clients_served_after_a_descriptor_shortage", 1);
+                    }
+                }
             }
         }
         // verdicts
